@@ -236,7 +236,36 @@ func RunCheck(opts CheckOpts) int {
 				o.Res = Prove(o.Name, o.Hyps, False, nil, 10, false)
 				return
 			}
-			o.Res = Prove(o.Name, o.Hyps, o.Goal, o.GetVals, timeout, needTwo)
+			if o.CaseTerm == nil {
+				o.Res = Prove(o.Name, o.Hyps, o.Goal, o.GetVals, timeout, needTwo)
+				return
+			}
+			// proof by cases: try the whole goal briefly, then one query per case (all must be unsat)
+			if r := Prove(o.Name, o.Hyps, o.Goal, o.GetVals, 2, false); r.Status == "unsat" || r.Status == "sat" {
+				o.Res = r
+				return
+			}
+			var total int64
+			var last *ProveResult
+			for c := o.CaseLo - 1; c <= o.CaseHi; c++ {
+				var ch *Term
+				if c < o.CaseLo {
+					ch = Or(IntLt(o.CaseTerm, IntK(int64(o.CaseLo))), IntLt(IntK(int64(o.CaseHi)), o.CaseTerm))
+				} else {
+					ch = Eq(o.CaseTerm, IntK(int64(c)))
+				}
+				r := Prove(fmt.Sprintf("%s.case%d", o.Name, c), append(append([]*Term(nil), o.Hyps...), ch), o.Goal, o.GetVals, timeout, needTwo)
+				total += r.Ms
+				last = r
+				if r.Status != "unsat" {
+					r.Ms = total
+					o.Res = r
+					return
+				}
+			}
+			last.Ms = total
+			last.Solver += "/cases"
+			o.Res = last
 		}()
 	}
 	pw.Wait()
@@ -261,11 +290,11 @@ func RunCheck(opts CheckOpts) int {
 			switch o.Res.Status {
 			case "sat":
 				coversSat++
-				if nr.Status != "cover-vacuous" {
-					nr.Status = "cover-ok"
-				}
+				nr.Status = "cover-ok" // one satisfiable path through the cut point is enough
 			case "unsat":
-				nr.Status, nr.Worst = "cover-vacuous", o
+				if nr.Status != "cover-ok" {
+					nr.Status, nr.Worst = "cover-vacuous", o
+				}
 			default:
 				if nr.Status == "discharged" {
 					nr.Status = "cover-unknown"
@@ -426,7 +455,7 @@ func RunCheck(opts CheckOpts) int {
 		}
 		for _, k := range keys {
 			r := results[k]
-			fmt.Printf("   unit %-55s paths=%d trunc=%d inc=%d wall=%v\n", k, r.Paths, r.Trunc, r.IncQueries, r.Wall.Round(time.Millisecond))
+			fmt.Printf("   unit %-55s paths=%d trunc=%d inc=%d inctime=%v wall=%v\n", k, r.Paths, r.Trunc, r.IncQueries, r.IncTime.Round(time.Millisecond), r.Wall.Round(time.Millisecond))
 			if r.Aborted != "" {
 				fmt.Printf("        aborted: %s\n", r.Aborted)
 			}
